@@ -319,6 +319,185 @@ theorem argRT_list_nodefault (name x d : Str) (dflt : Option Val) (edd rd : Bool
   rw [parse_nodefault _ d rd rfl rfl hpl (by simp only [typ0_some _ hs]; exact not_complex _ hs)]
   simp only [typ0_some _ hs, typStage_list _ hs, fill_required x rd hs]
 
+/-! ### `Literal['a', 'b', ...]` -/
+
+/-- a choice the emitter and the parser both carry verbatim: no quote mark and no back-slash inside (then its
+    `repr` is the text between single quotes), and `set_value` leaves it alone -/
+def memberOk (m : Str) : Prop := '\'' ∉ m ∧ '\\' ∉ m ∧ quoteDelimited m = false
+
+def quoted1 (m : Str) : Str := ['\''] ++ m ++ ['\'']
+
+/-- the type text of a string Literal, as `_handle_keyword` writes it -/
+def tLiteral (ms : List Str) : Str := handleChoices ms tStr
+
+theorem tLiteral_eq (ms : List Str) :
+    tLiteral ms = sLiteralName ++ ['['] ++ joinSep [',', ' '] (ms.map quoted1) ++ [']'] := by
+  unfold tLiteral handleChoices isSimple
+  have h1 : isScalar tStr = true := by decide
+  have h2 : (tStr == tStr) = true := by decide
+  simp only [h1, h2, if_true]
+  rfl
+
+theorem takeWhile_stop (c : Char) (a r : Str) (h : c ∉ a) : (a ++ c :: r).takeWhile (· != c) = a := by
+  induction a with
+  | nil => simp [List.takeWhile]
+  | cons x xs ih =>
+    have hx : (x != c) = true := by
+      have : x ≠ c := fun e => h (by simp [e])
+      simp [this]
+    have hxs : c ∉ xs := fun e => h (by simp [e])
+    rw [List.cons_append, List.takeWhile_cons, hx, if_pos rfl, ih hxs]
+
+theorem dropWhile_stop (c : Char) (a r : Str) (h : c ∉ a) : (a ++ c :: r).dropWhile (· != c) = c :: r := by
+  induction a with
+  | nil => simp [List.dropWhile]
+  | cons x xs ih =>
+    have hx : (x != c) = true := by
+      have : x ≠ c := fun e => h (by simp [e])
+      simp [this]
+    have hxs : c ∉ xs := fun e => h (by simp [e])
+    rw [List.cons_append, List.dropWhile_cons, hx, if_pos rfl, ih hxs]
+
+theorem contains_false_of_not_mem (c : Char) (a : Str) (h : c ∉ a) : a.contains c = false := by
+  simp [h]
+
+/-- **the member scanner inverts the member printer** (any number of members, any fuel that covers them) -/
+theorem litMembers_join : ∀ (ms : List Str) (fuel : Nat), ms ≠ [] → (∀ m ∈ ms, memberOk m) → ms.length ≤ fuel →
+    litMembers (joinSep [',', ' '] (ms.map quoted1)) fuel = some ms
+  | [], _, h, _, _ => absurd rfl h
+  | [m], fuel, _, hm, hf => by
+    obtain ⟨hq, hb, _⟩ := hm m (by simp)
+    cases fuel with
+    | zero => simp at hf
+    | succ f =>
+      have : joinSep [',', ' '] ([m].map quoted1) = '\'' :: (m ++ '\'' :: []) := by simp [joinSep, quoted1]
+      rw [this]
+      simp only [litMembers, beq_self_eq_true, Bool.true_or, if_true, takeWhile_stop '\'' m [] hq,
+        dropWhile_stop '\'' m [] hq, contains_false_of_not_mem _ _ hb, Bool.false_eq_true, if_false]
+  | m :: m2 :: rest, fuel, _, hm, hf => by
+    obtain ⟨hq, hb, _⟩ := hm m (by simp)
+    cases fuel with
+    | zero => simp at hf
+    | succ f =>
+      have hj : joinSep [',', ' '] ((m :: m2 :: rest).map quoted1) =
+          '\'' :: (m ++ '\'' :: (',' :: ' ' :: joinSep [',', ' '] ((m2 :: rest).map quoted1))) := by
+        simp [joinSep, quoted1]
+      rw [hj]
+      have ih := litMembers_join (m2 :: rest) f (by simp) (fun x hx => hm x (by simp [hx])) (by simp at hf ⊢; omega)
+      simp only [litMembers, beq_self_eq_true, Bool.true_or, if_true, takeWhile_stop '\'' m _ hq,
+        dropWhile_stop '\'' m _ hq, contains_false_of_not_mem _ _ hb, Bool.false_eq_true, if_false, ih, Option.map_some]
+
+theorem joinSep_length_ge (ms : List Str) : ms.length ≤ (joinSep [',', ' '] (ms.map quoted1)).length + 1 := by
+  induction ms with
+  | nil => simp
+  | cons m rest ih =>
+    cases rest with
+    | nil => simp [joinSep, quoted1]
+    | cons m2 r2 =>
+      simp only [List.map_cons, joinSep, List.length_append, List.length_cons] at ih ⊢
+      simp only [quoted1, List.length_append, List.length_cons, List.length_nil] at ih ⊢
+      omega
+
+theorem inside_wrapped (pre body : Str) : inside pre (pre ++ ['['] ++ body ++ [']']) = some body := by
+  unfold inside
+  have h1 : startsWith (pre ++ ['['] ++ body ++ [']']) (pre ++ ['[']) = true := by
+    unfold startsWith
+    rw [List.append_assoc (pre ++ ['['])]
+    exact List.isPrefixOf_iff_prefix.mpr (List.prefix_append _ _)
+  have h2 : endsWith (pre ++ ['['] ++ body ++ [']']) [']'] = true := by
+    unfold endsWith
+    simp [List.isPrefixOf]
+  simp only [h1, h2, Bool.and_self, if_true]
+  congr 1
+  have : (pre ++ ['['] ++ body ++ [']']).drop (pre.length + 1) = body ++ [']'] := by
+    have : pre ++ ['['] ++ body ++ [']'] = (pre ++ ['[']) ++ (body ++ [']']) := by simp
+    rw [this, List.drop_append_of_le_length (by simp)]
+    simp
+  rw [this]
+  simp only [List.length_append, List.length_cons, List.length_nil]
+  have : pre.length + 1 + body.length + 1 - pre.length - 2 = body.length := by omega
+  rw [this]
+  simp
+
+theorem cleanChoice_ok (m : Str) (h : memberOk m) : cleanChoice m = m := by
+  unfold cleanChoice
+  rw [setValue_plain m h.2.2]
+
+theorem map_cleanChoice (ms : List Str) (h : ∀ m ∈ ms, memberOk m) : ms.map cleanChoice = ms := by
+  induction ms with
+  | nil => rfl
+  | cons m rest ih =>
+    simp only [List.map_cons, cleanChoice_ok m (h m (by simp)), ih (fun x hx => h x (by simp [hx]))]
+
+/-- `_resolve_arg` on a Literal of two or more string choices: `choices=`, plain `str`, required -/
+theorem resolve_literal (ms : List Str) (r0 : Bool) (h2 : 2 ≤ ms.length) (hm : ∀ m ∈ ms, memberOk m)
+    (hc : containsSub (tLiteral ms) tComplex = false) :
+    resolveArgK false (tLiteral ms) r0 = .ok ⟨none, some ms, true, tStr⟩ := by
+  have hne : ms ≠ [] := by intro e; subst e; simp at h2
+  have heq := tLiteral_eq ms
+  have hlit : inside sLiteralName (tLiteral ms) = some (joinSep [',', ' '] (ms.map quoted1)) := by
+    rw [heq]; exact inside_wrapped _ _
+  have hhead : ∃ rest, tLiteral ms = 'L' :: 'i' :: 't' :: rest := by
+    rw [heq]; exact ⟨_, rfl⟩
+  obtain ⟨rest, hr⟩ := hhead
+  have h1 : startsWith (tLiteral ms) ['<'] = false := by rw [hr]; simp [startsWith, List.isPrefixOf]
+  have h3 : isSimple (tLiteral ms) = false := by
+    rw [hr]; simp [isSimple, isScalar, tInt, tFloat, tStr, tBool]
+  have h4 : (tLiteral ms == tDict) = false := by rw [hr]; simp [tDict]
+  have h5 : (tLiteral ms).isEmpty = false := by rw [hr]; rfl
+  have h6 : inside sOptional (tLiteral ms) = none := by
+    rw [hr]; simp [inside, startsWith, sOptional, List.isPrefixOf]
+  have h7 : inside sList (tLiteral ms) = none := by
+    rw [hr]; simp [inside, startsWith, sList, List.isPrefixOf]
+  have h8 := litMembers_join ms ((joinSep [',', ' '] (ms.map quoted1)).length + 1) hne hm (joinSep_length_ge ms)
+  have h9 : (ms.length > 1) = True := by simp; omega
+  unfold resolveArgK
+  simp only [h1, hc, h3, h4, h5, h6, h7, hlit, h8, Bool.false_eq_true, if_false, Bool.or_false, h9, if_true]
+  rfl
+
+theorem typStage_choices (ms : List Str) : typStage (some ms) none true tStr = tLiteral ms := by
+  unfold typStage tLiteral
+  simp
+
+theorem fill_str_required (rd : Bool) : fillDefault tStr true rd = some (.str []) := by
+  cases rd <;> decide
+
+/-- **a Literal of two or more string choices, without default**: `choices=(...)`, required, and read back as the
+    same Literal with the zero value of `str` -/
+theorem argRT_literal_nodefault (name d : Str) (ms : List Str) (dflt : Option Val) (edd rd : Bool) (hpl : plainDoc d)
+    (hk : notKwargs name) (h2 : 2 ≤ ms.length) (hm : ∀ m ∈ ms, memberOk m)
+    (hc : containsSub (tLiteral ms) tComplex = false) (hd : dflt = none ∨ dflt = some .none) :
+    argRT name { doc := some d, typ := some (tLiteral ms), default := dflt } edd rd =
+      .ok { doc := some d, typ := some (tLiteral ms), default := some (.str []) } := by
+  have hr : resolveArg name (tLiteral ms) false = .ok ⟨none, some ms, true, tStr⟩ := by
+    unfold resolveArg; rw [hk]; exact resolve_literal ms false h2 hm hc
+  unfold argRT
+  rw [emit_none name _ d dflt edd _ hd hr hpl (show isScalar tStr = true by decide)]
+  simp only [Res.bind, Option.map_some, map_cleanChoice ms hm]
+  have ht : typ0Of (if (tStr == tStr && (none : Option Str).isNone) = true then none else some tStr) = tStr := by decide
+  rw [parse_nodefault _ d rd rfl rfl hpl (by rw [ht]; decide)]
+  simp only [ht, typStage_choices, fill_str_required]
+
+/-- **... and with one of its choices (or any plain string) as default**: comes back unchanged -/
+theorem argRT_literal_default (name d s : Str) (ms : List Str) (edd rd : Bool) (hpl : plainDoc d)
+    (hk : notKwargs name) (h2 : 2 ≤ ms.length) (hm : ∀ m ∈ ms, memberOk m)
+    (hc : containsSub (tLiteral ms) tComplex = false) (hs : strPlain s) :
+    argRT name { doc := some d, typ := some (tLiteral ms), default := some (.str s) } edd rd =
+      .ok { doc := some d, typ := some (tLiteral ms), default := some (.str s) } := by
+  have hr : resolveArg name (tLiteral ms) true = .ok ⟨none, some ms, true, tStr⟩ := by
+    unfold resolveArg; rw [hk]; exact resolve_literal ms true h2 hm hc
+  unfold argRT
+  rw [emit_lit name _ d (.str s) edd _ hr hpl hs]
+  simp only [Res.bind, Option.map_some, map_cleanChoice ms hm]
+  have ht : typ0Of (if (typeName (Val.str s) == tStr && (none : Option Str).isNone) = true then none else some (typeName (Val.str s))) = tStr := by
+    show typ0Of (if (tStr == tStr && (none : Option Str).isNone) = true then none else some tStr) = tStr
+    decide
+  rw [parse_default _ d (.str s) rd rfl rfl (by rw [ht]; decide)]
+  simp only [ht, typStage_choices]
+
+example : memberOk "read only".toList := by unfold memberOk; decide
+example : tLiteral ["alpha".toList, "read only".toList] = "Literal['alpha', 'read only']".toList := by decide
+
 /-! ### statement level = interface level -/
 
 /-- the typed part of the argparse domain, by shape of the declared type and of the default -/
@@ -335,6 +514,14 @@ inductive ArgDom (name : Str) : Param → Prop where
   | listNone (x d : Str) (dflt : Option Val) (hpl : plainDoc d) (hk : notKwargs name) (hs : isScalar x = true)
       (hb : x ≠ tBool) (hd : dflt = none ∨ dflt = some .none) :
       ArgDom name { doc := some d, typ := some (tListOf x), default := dflt }
+  | litNone (d : Str) (ms : List Str) (dflt : Option Val) (hpl : plainDoc d) (hk : notKwargs name) (h2 : 2 ≤ ms.length)
+      (hm : ∀ m ∈ ms, memberOk m) (hc : containsSub (tLiteral ms) tComplex = false)
+      (hd : dflt = none ∨ dflt = some .none) :
+      ArgDom name { doc := some d, typ := some (tLiteral ms), default := dflt }
+  | litDefault (d s : Str) (ms : List Str) (hpl : plainDoc d) (hk : notKwargs name) (h2 : 2 ≤ ms.length)
+      (hm : ∀ m ∈ ms, memberOk m) (hc : containsSub (tLiteral ms) tComplex = false) (hs : strPlain s)
+      (hn : isNoneVal (.str s) = false) :
+      ArgDom name { doc := some d, typ := some (tLiteral ms), default := some (.str s) }
 
 /-- what the FIRST option of a function reads back as: `require_default` is still off, so an `Optional[...]`
     option without a value has no default at all (the later ones get the code-quoted None) -/
@@ -363,6 +550,22 @@ theorem argFill_list (x : Str) (p : Param) (h : isScalar x = true) :
     rcases scalar_cases x h with h | h | h | h <;> subst h <;> decide
   unfold argFill
   simp [h1, h2]
+
+theorem tLiteral_head (ms : List Str) : ∃ rest, tLiteral ms = 'L' :: 'i' :: 't' :: rest := by
+  rw [tLiteral_eq]; exact ⟨_, rfl⟩
+
+theorem argFill_literal (ms : List Str) (p : Param) : argFill (tLiteral ms) p = { p with default := some (.str []) } := by
+  obtain ⟨rest, hr⟩ := tLiteral_head ms
+  have h1 : isScalar (tLiteral ms) = false := by rw [hr]; simp [isScalar, tInt, tFloat, tStr, tBool]
+  have h2 : listInner (tLiteral ms) = none := by rw [hr]; simp [listInner, startsWith, pList, List.isPrefixOf]
+  have h3 : isLiteral (tLiteral ms) = true := by
+    rw [tLiteral_eq]; simp [isLiteral, startsWith, pLiteral, sLiteralName, List.isPrefixOf]
+  unfold argFill
+  simp [h1, h2, h3]
+
+theorem isOptional_literal (ms : List Str) : isOptional (tLiteral ms) = false := by
+  obtain ⟨rest, hr⟩ := tLiteral_head ms
+  rw [hr]; simp [isOptional, startsWith, pOptional, List.isPrefixOf]
 
 theorem isOptional_tOptional (x : Str) : isOptional (tOptional x) = true := by
   unfold isOptional tOptional pOptional sOptional
@@ -403,6 +606,11 @@ theorem argRT_eq_norm (name : Str) (p : Param) (edd : Bool) (h : ArgDom name p) 
   | listNone x d dflt hpl hk hs hb hd =>
     rw [argRT_list_nodefault name x d dflt edd true hpl hk hs hb hd,
       norm_nonelike _ d dflt (by rcases hd with h | h; exact Or.inl h; exact Or.inr (Or.inl h)), argFill_list x _ hs]
+  | litNone d ms dflt hpl hk h2 hm hc hd =>
+    rw [argRT_literal_nodefault name d ms dflt edd true hpl hk h2 hm hc hd,
+      norm_nonelike _ d dflt (by rcases hd with h | h; exact Or.inl h; exact Or.inr (Or.inl h)), argFill_literal]
+  | litDefault d s ms hpl hk h2 hm hc hs hn =>
+    rw [argRT_literal_default name d s ms edd true hpl hk h2 hm hc hs, norm_lit _ d _ hn]
 
 /-- ... and for the options before it (`require_default` still off): the same, except that an `Optional[...]`
     option without a value has no default at all -/
@@ -427,6 +635,13 @@ theorem argRT_eq_norm_first (name : Str) (p : Param) (edd : Bool) (h : ArgDom na
     rw [argRT_list_nodefault name x d dflt edd false hpl hk hs hb hd,
       norm_nonelike _ d dflt (by rcases hd with h | h; exact Or.inl h; exact Or.inr (Or.inl h)), argFill_list x _ hs]
     simp [firstForm, isOptional_list]
+  | litNone d ms dflt hpl hk h2 hm hc hd =>
+    rw [argRT_literal_nodefault name d ms dflt edd false hpl hk h2 hm hc hd,
+      norm_nonelike _ d dflt (by rcases hd with h | h; exact Or.inl h; exact Or.inr (Or.inl h)), argFill_literal]
+    simp [firstForm, isOptional_literal]
+  | litDefault d s ms hpl hk h2 hm hc hs hn =>
+    rw [argRT_literal_default name d s ms edd false hpl hk h2 hm hc hs, norm_lit _ d _ hn]
+    simp [firstForm, isOptional_literal]
 
 /-! ### the whole list of options (the `require_default` thread) -/
 
@@ -499,6 +714,9 @@ example : ArgDom "rate".toList { doc := some "the rate".toList, typ := some (tOp
   .optNone tFloat "the rate".toList _ (by unfold plainDoc; decide) (by unfold notKwargs; decide) (by decide) (Or.inr (Or.inr rfl))
 example : ArgDom "tags".toList { doc := some "the tags".toList, typ := some (tListOf tStr), default := none } :=
   .listNone tStr "the tags".toList none (by unfold plainDoc; decide) (by unfold notKwargs; decide) (by decide) (by decide) (Or.inl rfl)
+example : ArgDom "mode".toList { doc := some "the mode".toList, typ := some (tLiteral ["alpha".toList, "read only".toList]), default := none } :=
+  .litNone "the mode".toList _ none (by unfold plainDoc; decide) (by unfold notKwargs; decide) (by decide)
+    (by intro m hm; simp at hm; rcases hm with h | h <;> subst h <;> (unfold memberOk; decide)) (by decide) (Or.inl rfl)
 /-- the bool case the domain leaves out (recorded finding D28): no `required=True` is written, the option reads back
     as `Optional[bool]` -/
 example : argRT "flag".toList { doc := some "a flag".toList, typ := some tBool, default := none } true false =
